@@ -558,7 +558,10 @@ reneg_case(long long seed, long idx)
 		vf_stat("reneg_legacy_state_cases", 1);
 	}
 	vf_stat("reneg_cases", 1);
-	n_reneg = kind == 5 ? 3 : 1;
+	/* kind 5: three in a row; every fourth of those a long-lived connection with forty (whatever a handshake leaves behind in the
+	   engine - interpreter stacks, hash contexts, counters - has forty occasions to pile up) */
+	n_reneg = kind == 5 ? (((idx / 7) % 4) == 1 ? 40 : 3) : 1;
+	if (n_reneg == 40) vf_stat("reneg_forty_in_a_row_cases", 1);
 	for (k = 0; k < n_reneg; k ++) {
 		tp_ep *A = ((who + k) & 1) ? &s.p.s : &s.p.c;
 		int epoch0 = s.pm.m.rm.cs[0].epoch, epoch1 = s.pm.m.rm.cs[1].epoch, rr;
